@@ -212,6 +212,8 @@ class Sandbox:
             with self.trace.as_filename(filename, code):
                 exec(compiled_code, self.data)
         except Exception as user_exception:
+            if self._was_abandoned():
+                return self
             self._stop_mocking(context)
             self._capture_exception(user_exception, sys.exc_info(),
                                     code, filename)
@@ -219,10 +221,7 @@ class Sandbox:
         # This exception does not inherit from Exception and has to be caught separately
         except SystemExit as system_exit:
             _verif_sync('student_exit_handler')
-            if getattr(threading.current_thread(), 'abandoned', False):
-                # This thread was interrupted because it ran out of time. The caller has
-                # already reported the timeout and restored the patches (and may be
-                # running something else by now), so just unwind.
+            if self._was_abandoned():
                 return self
             self._stop_mocking(context)
             self._capture_exception(system_exit, sys.exc_info(),
@@ -230,13 +229,23 @@ class Sandbox:
         except BaseException:
             # KeyboardInterrupt, GeneratorExit, ... are not ours to report, but the
             # process-wide patches must not outlive the execution
-            self._stop_mocking(context)
+            if not self._was_abandoned():
+                self._stop_mocking(context)
             raise
         else:
+            if self._was_abandoned():
+                return self
             self._stop_mocking(context)
 
         self._next_context_id += 1
         return self
+
+    @staticmethod
+    def _was_abandoned():
+        """ Whether this thread was interrupted because it ran out of time. The caller has
+        already reported the timeout and restored the patches (and may be running something
+        else by now), so however the student code ends afterwards, this thread just unwinds. """
+        return getattr(threading.current_thread(), 'abandoned', False)
 
     def run(self, code=None, filename=None, inputs=None, threaded=None,
             after=None, before=None, real_io=False):
